@@ -39,6 +39,7 @@ type Event struct {
 
 type Spec struct {
 	Tag         string       `json:"tag,omitempty"` // set on the dedicated witness histories of listed findings
+	GroupKey    string       `json:"group,omitempty"` // requests with the same key share one cluster (its circuit breaker)
 	Oneway      bool         `json:"oneway,omitempty"`
 	HasData     bool         `json:"data,omitempty"`
 	HasTrailers bool         `json:"trailers,omitempty"`
@@ -154,9 +155,13 @@ func runPrepared(p *prepared) (res *Result) {
 	}
 	if sp.HdrGlobalMs > 0 {
 		hm[types.HeaderGlobalTimeout] = strconv.Itoa(sp.HdrGlobalMs)
+	} else if sp.HdrGlobalMs < 0 {
+		hm[types.HeaderGlobalTimeout] = "soon" // present but not an integer
 	}
 	if sp.HdrTryMs > 0 {
 		hm[types.HeaderTryTimeout] = strconv.Itoa(sp.HdrTryMs)
+	} else if sp.HdrTryMs < 0 {
+		hm[types.HeaderTryTimeout] = "1.5s"
 	}
 	hdr := protocol.CommonHeader(hm)
 	var data buffer.IoBuffer
